@@ -86,6 +86,27 @@ theorem getBal_setBal (b : List (Addr × Nat)) (a : Addr) (v : Nat) : getBal (se
       exact h (List.any_eq_true.2 ⟨x, hx, hc⟩)
     rw [List.find?_append, hn]; simp
 
+theorem insertSorted_mem' {α} (lt : α → α → Bool) (x : α) (l : List α) (y : α)
+    (h : y ∈ insertSorted lt x l) : y = x ∨ y ∈ l := by
+  induction l with
+  | nil => simp [insertSorted] at h; exact Or.inl h
+  | cons a as ih =>
+    unfold insertSorted at h
+    split at h
+    · simp at h; rcases h with h | h | h
+      · exact Or.inl h
+      · exact Or.inr (by simp [h])
+      · exact Or.inr (by simp [h])
+    · split at h
+      · simp at h; rcases h with h | h
+        · exact Or.inr (by simp [h])
+        · rcases ih h with h2 | h2
+          · exact Or.inl h2
+          · exact Or.inr (by simp [h2])
+      · simp at h; rcases h with h | h
+        · exact Or.inl h
+        · exact Or.inr (by simp [h])
+
 -- ---------------------------------------------------------------- "for all rollapps" invariants
 
 /-- `RaAll Q s`: every rollapp record of the state satisfies `Q` -/
